@@ -119,7 +119,8 @@ def run_shard(prop, fn, seed, k, n):
             fn(ctx)
             ctx.flush_model()
             rounds += 1
-            if ctx.time_left() < 0.25 * ctx.budget_s or ctx.violations or ctx.disagreements or rounds >= 200:
+            if (ctx.time_left() < 0.25 * ctx.budget_s or _unknown_violations(ctx) or ctx.disagreements
+                    or rounds >= 200 or len(ctx.violations) > 5000):
                 break
             ctx.rng = _random.Random((seed * 1009 + k) * 7919 + rounds)
     except Exception:  # noqa: BLE001
